@@ -101,6 +101,10 @@ pub trait Campaign: Sync + Send {
     fn name(&self) -> &'static str;
     fn strategy(&self, tier: Tier) -> BoxedStrategy<Self::Case>;
     fn check(&self, case: &Self::Case, ctx: &Ctx) -> Outcome;
+    /// cap on shrink iterations (campaigns whose failures cost a liveness wait keep it small)
+    fn max_shrink_iters(&self) -> u32 {
+        400
+    }
 }
 
 #[derive(Debug, Clone, Serialize)]
@@ -306,7 +310,7 @@ pub fn run_random<C: Campaign>(camp: &C, ev: &Evidence, ctx: &Ctx, cases: u32, s
                     cases: n,
                     failure_persistence: None,
                     rng_seed: RngSeed::Fixed(seed),
-                    max_shrink_iters: crate::util::env_u64("VERIF_MAX_SHRINK", 400) as u32,
+                    max_shrink_iters: crate::util::env_u64("VERIF_MAX_SHRINK", camp.max_shrink_iters() as u64) as u32,
                     max_global_rejects: 1_000_000,
                     ..Config::default()
                 });
